@@ -94,6 +94,21 @@ fn plant_extras(fs: &mut SimFs, t: &mut Tape, dir: &str, extras: &mut Vec<Extra>
             fs.inode_mut(ino).mtime = now - 5 * HOUR;
             extras.push(Extra { path: p, is_dir: true, mtime: 0, kind: "tempdir" });
         }
+        // a young symbolic link whose target (outside the cache) is old: the age
+        // of a temporary file is the age of the entry itself, not of what it
+        // points to
+        if t.draw(4) == 0 {
+            let target = "/sim/app/old-target".to_string();
+            if fs.stat(&target).is_err() {
+                fs.mkdir_all("/sim/app");
+                fs.plant_file(&target, b"old data", 0o644, now - 5 * HOUR, now - 5 * HOUR);
+            }
+            let p = format!("{}/.tmpLINK", td);
+            let m = now - 30 * 1_000_000_000;
+            fs.plant_symlink(&p, &target, m);
+            let stored = fs.lstat(&p).map(|s| s.mtime).unwrap_or(m);
+            extras.push(Extra { path: p, is_dir: false, mtime: stored, kind: "temp" });
+        }
         // a temporary directory nobody created or removed anything in for
         // hours (its own mtime is old) may still hold files that are being
         // written to: the age of a file is its own
@@ -205,8 +220,8 @@ impl Check for C17 {
         // when was the temp directory of each maintained directory cleaned?
         let mut deleted = 0u64;
         for ex in extras.iter() {
-            let still = after_fs.stat(&ex.path);
-            let was = before_fs.stat(&ex.path).unwrap();
+            let still = after_fs.lstat(&ex.path);
+            let was = before_fs.lstat(&ex.path).unwrap();
             sig = mix(sig, hash_str(ex.kind));
             match ex.kind {
                 "temp" => {
